@@ -22,7 +22,12 @@
               (TCP + coder/websocket); an upstream frame is modelled at the moment it is read.
      A-cb     handler callbacks return (a handler that blocks stalls its connection's read loop;
               that is the documented contract of common.Handler).
-   Left out: Client.ctx shutdown (ErrClientClosed), the write timeout expiring on a stalled
+   Upstream frames are the WIRE alphabet of both sub-protocols (frame = type x id? x payload class): decode,
+   IntoClientMessage and dispatch's removal test are modelled as the code does them (decode / into_client /
+   wire_terminal); a connection carries its negotiated sub-protocol (c_proto, fixed at UpAck).  A frame that
+   does not decode is a read error of the read loop: the socket is lost (cause CUpstream).
+   Left out: ErrInvalidSubprotocol (an upstream that answers with a sub-protocol that was not offered: a dial
+   failure like UpReject), Client.ctx shutdown (ErrClientClosed), the write timeout expiring on a stalled
    upstream (behaves like UpDrop), ping/pong bookkeeping (only its effect, APingTimeout).
 
    This is the code AFTER the three repairs (ModelV0.v is the code as found):
@@ -59,8 +64,95 @@ Inductive err :=
 | EExists                        (* ErrSubscriptionExists *)
 | EWrite (c : cause).            (* protocol.Subscribe write failed *)
 
-Inductive kind := KData (tag : N) | KError | KComplete.
-Definition terminal (k : kind) : bool := match k with KData _ => false | _ => true end.
+(* what a handler is called with (common.Message): MessageTypeData with / without payload,
+   MessageTypeError (has Payload), MessageTypeComplete, MessageTypeConnectionError produced by the
+   frame conversion (e: Err is set -- legacy connection_error -- or nil), MessageTypeUnknown *)
+Inductive kind := KData (tag : N) | KDataNil | KError | KComplete | KConnErr (e : bool) | KUnknown.
+(* MessageType.IsTerminal *)
+Definition terminal (k : kind) : bool :=
+  match k with KData _ | KDataNil | KUnknown => false | KError | KComplete | KConnErr _ => true end.
+
+(* ---- upstream frames: the wire alphabet of both sub-protocols (protocol/graphql_transport_ws.go,
+   protocol/graphql_ws.go), the decoded protocol.WireMessage, and WireMessage.IntoClientMessage ---- *)
+Inductive proto := PTws | PGws.            (* graphql-transport-ws | legacy graphql-ws *)
+Inductive ftype :=
+| FNext | FData | FError | FComplete | FConnError | FPing | FPong | FKa | FAck
+| FOther                                   (* a JSON object whose "type" neither protocol knows *)
+| FGarbage.                                (* not a JSON object at all: wsjson.Read fails *)
+(* "payload": absent | a JSON object (for next/data: {"data":{"v":tag}}) | JSON that does not
+   unmarshal into an ExecutionResult (a string, an array ...) *)
+Inductive fpayload := PNone | PObj (tag : N) | PBad.
+Record frame := { f_type : ftype; f_id : option nat; f_pl : fpayload }.
+
+Inductive wtype := WData | WError | WComplete | WPing | WPong.
+Record wire := { w_id : option nat; w_type : wtype; w_pl : fpayload (* PNone: Payload == nil *); w_err : bool (* Err != nil *) }.
+
+Definition mkw (f : frame) (t : wtype) (pl : fpayload) (e : bool) : option wire :=
+  Some {| w_id := f_id f; w_type := t; w_pl := pl; w_err := e |}.
+(* next / data: a present payload must unmarshal into an ExecutionResult, else decode fails *)
+Definition decode_data (f : frame) : option wire :=
+  match f_pl f with PBad => None | pl => mkw f WData pl false end.
+(* decode of both protocols; None: Read returns an error (wsjson.Read or "unknown message type") *)
+Definition decode (p : proto) (f : frame) : option wire :=
+  match f_type f with
+  | FError => mkw f WError (f_pl f) false           (* any payload is kept raw as Errors *)
+  | FComplete => mkw f WComplete PNone false
+  | FNext => match p with PTws => decode_data f | PGws => None end
+  | FData => match p with PGws => decode_data f | PTws => None end
+  | FPing => match p with PTws => mkw f WPing PNone false | PGws => None end
+  | FPong => match p with PTws => mkw f WPong PNone false | PGws => None end
+  | FKa => match p with PGws => mkw f WPing PNone false | PTws => None end
+  | FConnError => match p with PGws => mkw f WError PNone true | PTws => None end   (* Payload stays nil, Err set *)
+  | FAck | FOther | FGarbage => None
+  end.
+Definition into_client (m : wire) : kind :=
+  match w_type m with
+  | WData => match w_pl m with PObj t => KData t | _ => KDataNil end
+  | WError => match w_pl m with PNone => KConnErr (w_err m) | _ => KError end
+  | WComplete => KComplete
+  | _ => KUnknown
+  end.
+(* dispatch: msg.Type == MessageComplete || msg.Type == MessageError -> removeSub *)
+Definition wire_terminal (t : wtype) : bool := match t with WError | WComplete => true | _ => false end.
+(* the graphql-transport-ws frame that means k for wire id w *)
+Definition frame_of (w : nat) (k : kind) : frame :=
+  match k with
+  | KData t => {| f_type := FNext; f_id := Some w; f_pl := PObj t |}
+  | KDataNil => {| f_type := FNext; f_id := Some w; f_pl := PNone |}
+  | KError => {| f_type := FError; f_id := Some w; f_pl := PObj 0 |}
+  | KComplete => {| f_type := FComplete; f_id := Some w; f_pl := PNone |}
+  | KConnErr _ => {| f_type := FError; f_id := Some w; f_pl := PNone |}
+  | KUnknown => {| f_type := FPing; f_id := Some w; f_pl := PNone |}
+  end.
+(* the sub-protocols a dial for this option tuple can end up with (negotiateSubprotocol): field 2
+   of the key is 1 = graphql-transport-ws, 2 = graphql-ws, 0 = auto (the upstream chooses) *)
+Definition proto_ok (k : key) (p : proto) : bool :=
+  match k with (_, sp, _, _) =>
+    match p with PTws => N.eqb sp 1 || N.eqb sp 0 | PGws => N.eqb sp 2 || N.eqb sp 0 end
+  end.
+
+(* ---- SSE events (sse_conn.go parseEventBytes / parseEvent) ---- *)
+Inductive setype := SNext | SError | SComplete | SNoType | SOtherType.
+Inductive sdata := DAbsent | DEmpty | DObj (tag : N) | DBad.       (* no data line | "data:" | an object | not an ExecutionResult *)
+Record sse_event := { se_type : setype; se_data : sdata }.
+Definition sse_data_kind (d : sdata) : kind :=
+  match d with DObj t => KData t | _ => KConnErr true end.          (* json.Unmarshal error -> connection error *)
+(* None: the event is skipped (no event type and no data: keep-alive comment) *)
+Definition sse_parse (e : sse_event) : option kind :=
+  match se_type e with
+  | SNext => Some (sse_data_kind (se_data e))
+  | SError => Some KError
+  | SComplete => Some KComplete
+  | SNoType => match se_data e with DAbsent => None | DEmpty => Some KComplete | d => Some (sse_data_kind d) end
+  | SOtherType => match se_data e with DAbsent | DEmpty => Some KComplete | d => Some (sse_data_kind d) end
+  end.
+Definition sse_event_of (k : kind) : sse_event :=
+  match k with
+  | KData t => {| se_type := SNext; se_data := DObj t |}
+  | KError => {| se_type := SError; se_data := DObj 0 |}
+  | KComplete => {| se_type := SComplete; se_data := DAbsent |}
+  | _ => {| se_type := SNext; se_data := DBad |}
+  end.
 
 Inductive cont := KCancel | KSendFail (e : err).
 
@@ -88,6 +180,7 @@ Record dial := { d_key : key; d_owner : nat; d_phase : dphase; d_done : option (
 
 Record conn := {
   c_key : key;
+  c_proto : proto;                (* negotiated sub-protocol *)
   c_subs : list (nat * nat);      (* wire id -> handler (owner index) *)
   c_closed : bool;                (* atomic closed *)
   c_dead : option cause;          (* the socket is unusable, and why *)
@@ -116,11 +209,11 @@ Inductive ev :=
 | OSrvSub (c w i : nat)
 | OSrvStop (c w : nat)
 | OSrvClosed (c : nat)
-| OUp (c w : nat) (k : kind)
+| OUp (c : nat) (p : proto) (f : frame)
 | OAccept (d : nat) | OReject (d : nat) | OAck (d : nat) | OInitFail (d : nat) (r : N)
 | ODrop (c : nat) | OPing (c : nat)
 | OTick | OStats (ws sse : nat)
-| OSseReq (i : nat) | OSseRet (i : nat) (ok : bool) | OSseUp (i : nat) (k : kind)
+| OSseReq (i : nat) | OSseRet (i : nat) (ok : bool) | OSseUp (i : nat) (e : sse_event)
 | OSseDeliver (i : nat) (k : kind) | OSseErr (i : nat).
 
 Inductive action :=
@@ -131,9 +224,9 @@ Inductive action :=
 | AUnsub (i : nat) | AUnsubSend (i : nat) | ARemove (i : nat) | AClose (i : nat)
 | ARLRemove (c : nat) | ARLClose (c : nat) | ARLReadErr (c : nat)
 | ATimerFire (c : nat) | ARemoveConn (c : nat)
-| UpAccept (d : nat) | UpReject (d : nat) | UpAck (d : nat) | UpInitFail (d : nat) (r : N)
-| UpMsg (c w : nat) (k : kind) | UpDrop (c : nat) | APingTimeout (c : nat)
-| SseSub (i : nat) | SseOk (i : nat) | SseFail (i : nat) | SseMsg (i : nat) (k : kind)
+| UpAccept (d : nat) | UpReject (d : nat) | UpAck (d : nat) (p : proto) | UpInitFail (d : nat) (r : N)
+| UpMsg (c : nat) (f : frame) | UpDrop (c : nat) | APingTimeout (c : nat)
+| SseSub (i : nat) | SseOk (i : nat) | SseFail (i : nat) | SseMsg (i : nat) (e : sse_event)
 | SseDrop (i : nat) | SseCancel (i : nat).
 
 (* ---- maps ---- *)
@@ -181,20 +274,20 @@ Definition set_sse (s : st) (i : nat) (p : ssepc) : st :=
      seen := seen s; sse := upd (sse s) i p |}.
 
 Definition c_set_subs (x : conn) (l : list (nat * nat)) : conn :=
-  {| c_key := c_key x; c_subs := l; c_closed := c_closed x; c_dead := c_dead x; c_timers := c_timers x;
+  {| c_key := c_key x; c_proto := c_proto x; c_subs := l; c_closed := c_closed x; c_dead := c_dead x; c_timers := c_timers x;
      c_rl := c_rl x; c_rm := c_rm x |}.
 Definition c_set_rl (x : conn) (r : rlpc) : conn :=
-  {| c_key := c_key x; c_subs := c_subs x; c_closed := c_closed x; c_dead := c_dead x; c_timers := c_timers x;
+  {| c_key := c_key x; c_proto := c_proto x; c_subs := c_subs x; c_closed := c_closed x; c_dead := c_dead x; c_timers := c_timers x;
      c_rl := r; c_rm := c_rm x |}.
 Definition c_set_timers (x : conn) (t : nat) : conn :=
-  {| c_key := c_key x; c_subs := c_subs x; c_closed := c_closed x; c_dead := c_dead x; c_timers := t;
+  {| c_key := c_key x; c_proto := c_proto x; c_subs := c_subs x; c_closed := c_closed x; c_dead := c_dead x; c_timers := t;
      c_rl := c_rl x; c_rm := c_rm x |}.
 Definition c_set_rm (x : conn) (b : bool) : conn :=
-  {| c_key := c_key x; c_subs := c_subs x; c_closed := c_closed x; c_dead := c_dead x; c_timers := c_timers x;
+  {| c_key := c_key x; c_proto := c_proto x; c_subs := c_subs x; c_closed := c_closed x; c_dead := c_dead x; c_timers := c_timers x;
      c_rl := c_rl x; c_rm := b |}.
 (* the socket becomes unusable (first cause wins) *)
 Definition c_kill (x : conn) (cz : cause) : conn :=
-  {| c_key := c_key x; c_subs := c_subs x; c_closed := c_closed x;
+  {| c_key := c_key x; c_proto := c_proto x; c_subs := c_subs x; c_closed := c_closed x;
      c_dead := match c_dead x with None => Some cz | d => d end; c_timers := c_timers x;
      c_rl := c_rl x; c_rm := c_rm x |}.
 Definition kill_evs (c : nat) (x : conn) : list ev :=
@@ -220,7 +313,7 @@ Definition shut (s : st) (c : nat) (cz : cause) : st * list ev :=
   | Some x =>
     if c_closed x then (s, [])
     else
-      let x' := {| c_key := c_key x; c_subs := []; c_closed := true;
+      let x' := {| c_key := c_key x; c_proto := c_proto x; c_subs := []; c_closed := true;
                    c_dead := match c_dead x with None => Some cz | d => d end;
                    c_timers := c_timers x; c_rl := c_rl x; c_rm := true |} in
       (set_cn s c x', map (fun p => OConnErr (snd p) cz) (c_subs x) ++ kill_evs c x)
@@ -351,11 +444,12 @@ Definition step (s : st) (a : action) : option (st * list ev) :=
                 | _ => None end
     | None => None
     end
-  | UpAck d =>
+  | UpAck d p =>
     match dials s d with
     | Some x => match d_phase x with
                 | DInit =>
-                  let cn := {| c_key := d_key x; c_subs := []; c_closed := false; c_dead := None; c_timers := 0;
+                  if negb (proto_ok (d_key x) p) then None else
+                  let cn := {| c_key := d_key x; c_proto := p; c_subs := []; c_closed := false; c_dead := None; c_timers := 0;
                                c_rl := RLRun; c_rm := false |} in
                   Some (set_pc (set_cn (set_dial s d (d_set x DReturned None)) d cn) (d_owner x) (SBook d None), [OAck d])
                 | _ => None end
@@ -472,17 +566,32 @@ Definition step (s : st) (a : action) : option (st * list ev) :=
     | _ => None
     end
   (* ---- read loop of connection c ---- *)
-  | UpMsg c w k =>
+  (* readLoop: protocol.Read (decode) -> ping / pong | dispatch(msg): [S_c: lookup msg.ID] handler(IntoClientMessage)
+     and, for a wire complete / error, removeSub.  A frame that does not decode is a read error. *)
+  | UpMsg c f =>
     match cns s c with
     | Some x =>
       match c_rl x, c_closed x, c_dead x with
       | RLRun, false, None =>
-        if mem_nat w (map fst (seen s)) || Nat.leb (next_w s) w then
-          match lookup w (c_subs x) with
-          | Some i => Some (if terminal k then set_cn s c (c_set_rl x (RLRemove w)) else s, [OUp c w k; ODeliver i k])
-          | None => Some (s, [OUp c w k])
+        match decode (c_proto x) f with
+        | None => Some (set_cn s c (c_kill x CUpstream), [OUp c (c_proto x) f; OSrvClosed c])
+        | Some m =>
+          match w_type m with
+          | WPing | WPong => Some (s, [OUp c (c_proto x) f])
+          | _ =>
+            match w_id m with
+            | None => Some (s, [OUp c (c_proto x) f])            (* subs[""]: no such entry *)
+            | Some w =>
+              if mem_nat w (map fst (seen s)) || Nat.leb (next_w s) w then
+                match lookup w (c_subs x) with
+                | Some i => Some (if wire_terminal (w_type m) then set_cn s c (c_set_rl x (RLRemove w)) else s,
+                                  [OUp c (c_proto x) f; ODeliver i (into_client m)])
+                | None => Some (s, [OUp c (c_proto x) f])
+                end
+              else None
+            end
           end
-        else None
+        end
       | _, _, _ => None
       end
     | None => None
@@ -567,9 +676,13 @@ Definition step (s : st) (a : action) : option (st * list ev) :=
   | SseSub i => match sse s i with SseIdle => Some (set_sse s i SseReq, [OSseReq i]) | _ => None end
   | SseOk i => match sse s i with SseReq => Some (set_sse s i SseActive, [OSseRet i true]) | _ => None end
   | SseFail i => match sse s i with SseReq => Some (set_sse s i SseEnded, [OSseRet i false]) | _ => None end
-  | SseMsg i k =>
+  | SseMsg i e =>
     match sse s i with
-    | SseActive => Some (if terminal k then set_sse s i SseEnded else s, [OSseUp i k; OSseDeliver i k])
+    | SseActive =>
+      match sse_parse e with
+      | Some k => Some (if terminal k then set_sse s i SseEnded else s, [OSseUp i e; OSseDeliver i k])
+      | None => Some (s, [OSseUp i e])
+      end
     | _ => None
     end
   | SseDrop i => match sse s i with SseActive => Some (set_sse s i SseEnded, [OSseErr i]) | _ => None end
